@@ -21,11 +21,11 @@ func vgfC10Weights(kind string) []vgfWeight {
 	admin := []vgfWeight{{"snapshot", 1}, {"bgrun", 2}, {"reopen", 1}, {"flush", 1}}
 	switch kind {
 	case vgfSet:
-		return append([]vgfWeight{{"setBit", 3}, {"clearBit", 2}, {"setRow", 4}, {"clearRow", 3}, {"import", 3}, {"importClear", 3}, {"roaring", 4}, {"roaringClear", 3}}, admin...)
+		return append([]vgfWeight{{"setBit", 3}, {"clearBit", 2}, {"setRow", 4}, {"clearRow", 3}, {"import", 3}, {"importClear", 3}, {"roaring", 4}, {"roaringClear", 3}, {"importWide", 1}, {"roaringWide", 1}}, admin...)
 	case vgfMutex, vgfBool:
-		return append([]vgfWeight{{"setBit", 4}, {"clearBit", 2}, {"clearRow", 3}, {"import", 5}, {"importClear", 3}}, admin...)
+		return append([]vgfWeight{{"setBit", 4}, {"clearBit", 2}, {"clearRow", 3}, {"import", 5}, {"importClear", 3}, {"importWide", 1}}, admin...)
 	default:
-		return append([]vgfWeight{{"setValue", 4}, {"importValue", 6}, {"importValueClear", 2}}, admin...)
+		return append([]vgfWeight{{"setValue", 4}, {"importValue", 6}, {"importValueClear", 2}, {"importValueWide", 1}}, admin...)
 	}
 }
 
